@@ -1,0 +1,91 @@
+//go:build verif
+
+// Verification hooks (build tag `verif` only; see /verif/DESIGN.md section 4).
+// Add-only: nothing here is compiled into a normal build.
+
+package multicast
+
+import (
+	"time"
+
+	"github.com/gauss-project/aurorafs/pkg/boson"
+	"github.com/gogf/gf/v2/os/gcache"
+)
+
+var (
+	verifCaches    = map[int]*gcache.Cache{}
+	verifBaseCache = cache
+)
+
+// VerifUseCache makes the package-global cache the private cache of node i
+// (one process hosts several Service instances in a conformance run; in
+// production every node has its own process and therefore its own cache).
+func VerifUseCache(i int) {
+	c, ok := verifCaches[i]
+	if !ok {
+		c = gcache.New()
+		verifCaches[i] = c
+	}
+	cache = c
+}
+
+// VerifResetCaches empties the package-global cache(s): every de-duplication
+// window is over.
+func VerifResetCaches() {
+	_ = verifBaseCache.Clear(cacheCtx)
+	for _, c := range verifCaches {
+		_ = c.Clear(cacheCtx)
+	}
+	cache = verifBaseCache
+}
+
+// VerifClearCache empties the cache currently in use (the windows of one node).
+func VerifClearCache() { _ = cache.Clear(cacheCtx) }
+
+// VerifGroupLists returns the three peer lists of a group.
+func (s *Service) VerifGroupLists(gid boson.Address) (connected, kept, known []boson.Address, ok bool) {
+	g := s.getGroup(gid)
+	if g == nil {
+		return nil, nil, nil, false
+	}
+	g.mux.RLock()
+	defer g.mux.RUnlock()
+	return g.connectedPeers.BinPeers(0), g.keepPeers.BinPeers(0), g.knownPeers.BinPeers(0), true
+}
+
+// VerifGroups lists the ids of the groups the service currently holds.
+func (s *Service) VerifGroups() (out []boson.Address) {
+	for _, g := range s.getGroupAll() {
+		out = append(out, g.gid)
+	}
+	return
+}
+
+// VerifGroupAdd is Group.add (creating the group as a "known" group when absent,
+// like the notify/handshake handlers do).
+func (s *Service) VerifGroupAdd(gid, peer boson.Address, keep bool) {
+	s.getGroupOrCreate(gid).add(peer, keep)
+}
+
+// VerifGroupRemove is Group.remove.
+func (s *Service) VerifGroupRemove(gid, peer boson.Address, intoKnown bool) {
+	s.getGroupOrCreate(gid).remove(peer, intoKnown)
+}
+
+// VerifGroupPruneKnown is Group.pruneKnown.
+func (s *Service) VerifGroupPruneKnown(gid boson.Address) {
+	s.getGroupOrCreate(gid).pruneKnown()
+}
+
+// VerifUnthrottle makes the next group-peers notification of every group go out
+// immediately (the 500 ms spacing is slept away under the group lock otherwise).
+func (s *Service) VerifUnthrottle() {
+	for _, g := range s.getGroupAll() {
+		g.mux.Lock()
+		g.groupPeersLastSend = time.Time{}
+		g.mux.Unlock()
+	}
+}
+
+// VerifMaxKnownPeers is the prune threshold of the known list.
+const VerifMaxKnownPeers = maxKnownPeers
